@@ -141,3 +141,23 @@ def leaf_set_native(P, ks, a):
     changed = sorted(model.items()) != sorted(zip(keys, vals))
     if bool(b._p_changed) != changed and b._p_jar is not None:
         fail('change notification differs from "modified"', ctx)
+
+
+def tree_native(P, ks, a):
+    """replay of an E2 _BTree_get counterexample: the compiled family's BTree, loaded with the template"""
+    from engine import shapes
+
+    def tup(x):
+        return tuple(tup(i) for i in x) if isinstance(x, (list, tuple)) else x
+    fam, tpl = P['family'], tup(P['tpl'])
+    cl = shapes.classes(fam, 'c')
+    m = shapes.n_ranks(tpl)
+    keys = [a['k%d' % i] for i in range(m)]
+    t = shapes.build_loaded(tpl, keys, cl, 'BTree', lambda r: r + 1)
+    stored = {keys[r]: r + 1 for r in set(shapes.leaf_keys(tpl))}
+    ctx = {'harness': 'tree_native', 'family': fam}
+    n = a['n']
+    got = t.get(n, 'absent') if P['has_key'] == 0 else (n in t)
+    exp = stored.get(n, 'absent') if P['has_key'] == 0 else (n in stored)
+    if got != exp:
+        fail('compiled tree lookup differs from the sorted-map model', ctx, keys, n, got, exp)
